@@ -92,7 +92,7 @@ func plainEnds(s string) bool {
 
 func runC15(ctx *Ctx) error {
 	r, res := ctx.Rng, ctx.Res
-	res.Rule = "on loopback TCP: (A) DialContext against this package's Listen/Accept for callsigns and passwords from three families (callsign-like, printable ASCII incl. inner spaces, arbitrary bytes without CR), both sides writing a payload immediately after login; (B) the library client against a scripted server that splits prompts at random places, sends banner and blank lines, garbage lines without the keywords, and coalesces the payload with the password prompt or sends everything in one write; (C) the library server against a scripted client that sends callsign, password and payload in one write or in random pieces; every observation compared with the model (what each side sent, what was left for Read) and judged by the property (RemoteCall = the dialler's callsign, payloads byte-exact and complete); (D) DialContext / DialTimeout / DialURL(dial_timeout) / DialURLContext with a configured time-out and a later context deadline against servers that stay silent, send half a prompt, send garbage lines periodically, close at once, close after the first prompt, or prompt and then never read the (24 MiB) answer: the call must return an error no later than its deadline (+1.5 s tolerance for scheduling on a loaded machine), and a context cancelled without deadline ends the dial as well. Non-trivial: scenario with a payload of at least one byte in each direction; distinct by scenario parameters."
+	res.Rule = "on loopback TCP: (A) DialContext against this package's Listen/Accept for callsigns and passwords from three families (callsign-like, printable ASCII incl. inner spaces, arbitrary bytes without CR), both sides writing a payload immediately after login; (B) the library client against a scripted server that splits prompts at random places, sends banner and blank lines, garbage lines without the keywords, and coalesces the payload with the password prompt or sends everything in one write; (C) the library server against a scripted client that sends callsign, password and payload in one write or in random pieces; every observation compared with the model (what each side sent, what was left for Read) and judged by the property (RemoteCall = the dialler's callsign, payloads byte-exact and complete); (D) DialContext / DialTimeout / DialURL(dial_timeout) / DialURLContext with a configured time-out and a later context deadline against servers that stay silent, send half a prompt, send garbage lines periodically, close at once, close after the first prompt, or prompt and then never read the (24 MiB) answer: the call must return an error no later than its deadline (+1.5 s tolerance for scheduling on a loaded machine), a context cancelled without deadline ends the dial as well, and so does a time-out or deadline that has already run out when the dial starts (0 and -1 s). Non-trivial: scenario with a payload of at least one byte in each direction; distinct by scenario parameters."
 	if !ardLoopbackOK() {
 		res.Fail(Failure{Kind: "broken", Site: "environment", Detail: "loopback TCP is not available: the telnet package cannot be exercised"})
 		return nil
@@ -369,10 +369,17 @@ func runC15(ctx *Ctx) error {
 	behaviours := []string{"silent", "half-prompt", "garbage-forever", "close-at-once", "close-after-prompt", "callsign-prompt-only", "prompt-then-stop-reading"}
 	nd := ctx.N(28, 98)
 	hows := []string{"context", "timeout", "url", "cancel", "url-and-later-context-deadline", "dialer-timeout-and-later-context-deadline", "default-dialer-timeout-through-the-registry"}
-	for i := 0; i < nd; i++ {
+	for i := 0; i < nd+4; i++ {
 		beh := behaviours[i%len(behaviours)]
 		how := hows[(i+i/len(behaviours))%len(hows)]
 		limit := time.Duration(150+r.Intn(250)) * time.Millisecond
+		if i >= nd {
+			// a time-out or deadline that has already run out when the dial starts (0 and -1 s): the
+			// dial ends at once, whatever the server does
+			beh = []string{"silent", "half-prompt"}[i%2]
+			how = []string{"context", "timeout"}[(i-nd)/2]
+			limit = -time.Duration(i%2) * time.Second
+		}
 		desc := fmt.Sprintf("D server=%s via=%s limit=%v", beh, how, limit)
 		ctx.Mark(desc)
 		ln, err := net.Listen("tcp", "127.0.0.1:0")
@@ -424,17 +431,21 @@ func runC15(ctx *Ctx) error {
 		if beh == "prompt-then-stop-reading" {
 			mycall = strings.Repeat("A", 24<<20)
 		}
+		dialLimit := limit // (may be negative; limit, used by the oracle below, is not)
+		if limit < 0 {
+			limit = 0
+		}
 		start := time.Now()
 		go func() {
 			var c net.Conn
 			var err error
 			switch how {
 			case "context":
-				dctx, cancel := context.WithTimeout(context.Background(), limit)
+				dctx, cancel := context.WithTimeout(context.Background(), dialLimit)
 				c, err = telnet.DialContext(dctx, ln.Addr().String(), mycall, "secret")
 				cancel()
 			case "timeout":
-				c, err = telnet.DialTimeout(ln.Addr().String(), mycall, "secret", limit)
+				c, err = telnet.DialTimeout(ln.Addr().String(), mycall, "secret", dialLimit)
 			case "url":
 				u, perr := transport.ParseURL(fmt.Sprintf("telnet://LA5NTA:secret@%s/wl2k?dial_timeout=%dms", ln.Addr().String(), limit.Milliseconds()))
 				if perr != nil {
